@@ -20,9 +20,9 @@ ASSUMPTIONS = ['oracle: direct evaluation of witnesses; exhaustive integer searc
 def bounds(tier):
     return tier_param(tier,
                       {'2 variables': 'all systems of <=2 rows with entries in -2..2; 3 rows: two rows in -2..2, third in -1..1',
-                       '3 variables': '<=2 rows with entries in -1..1', 'box': 8},
+                       '3 variables': '<=2 rows with entries in -1..1', 'no unit coefficients': '2-3 rows, coefficients in {-3,-2,2,3}, constants -1..1', 'box': 8},
                       {'2 variables': 'all systems of <=3 rows with entries in -2..2; <=2 rows in -3..3; 4 rows in -1..1',
-                       '3 variables': '<=3 rows with entries in -1..1', 'box': 10})
+                       '3 variables': '<=3 rows with entries in -1..1', 'no unit coefficients': '2-3 rows, coefficients in {-3,-2,2,3}, constants -2..2', 'box': 10})
 
 
 def systems(tier):
@@ -46,6 +46,12 @@ def systems(tier):
                     yield [list(x) for x in m]
         for m in itertools.product(rows1, repeat=4):
             yield [list(x) for x in m]
+    # systems without unit coefficients (no exact elimination: dark / grey shadow cases)
+    nounit = [(a_, b_, k_) for a_ in (-3, -2, 2, 3) for b_ in (-3, -2, 2, 3) for k_ in (tier_param(tier, (-1, 0, 1), (-2, -1, 0, 1, 2)))]
+    for m in itertools.product(nounit, repeat=2):
+        yield [list(x) for x in m]
+    for m in itertools.product(nounit, repeat=3):
+        yield [list(x) for x in m]
     rows3 = list(itertools.product(range(-1, 2), repeat=4))
     for n in range(1, tier_param(tier, 2, 3) + 1):
         for m in itertools.product(rows3, repeat=n):
